@@ -276,6 +276,7 @@ func Check[C any](t *testing.T, p Property[C]) {
 				}
 				fails++
 				col.res.ReplayFails = fails
+				break // one failing repetition settles it
 			}
 		}
 		if fails > 0 {
